@@ -95,6 +95,26 @@ fn call(which: Which, kv: &Kv, time: u64, sender: &str, act: &OwnAct) -> Result<
 /// unrelated admin operations (they emit messages that are not dispatched here; only storage matters)
 fn noise_call(which: Which, kv: &Kv, time: u64, admin: &str, kind: u8) -> Result<Kv, String> {
     let mut kv2 = kv.clone();
+    if kind == 3 {
+        // a code upgrade during the handover: the store still carries the previous version and the new
+        // code's migrate entry point runs (a pending nomination and its clock must survive it)
+        let api = SimApi { prefix: PROTO_PREFIX };
+        let q = NoQuerier;
+        let ok = match which {
+            Which::Staking => {
+                cw2::set_contract_version(&mut kv2, "staking", "1.0.0").map_err(|e| e.to_string())?;
+                let deps = DepsMut { storage: &mut kv2, api: &api, querier: QuerierWrapper::new(&q) };
+                matches!(guarded(|| staking::contract::migrate(deps, env(time), staking::msg::MigrateMsg::V1_0_0ToV1_1_0 {})), Ok(Ok(_)))
+            }
+            Which::Treasury => {
+                let cur = cw2::get_contract_version(&kv2).map_err(|e| e.to_string())?;
+                cw2::set_contract_version(&mut kv2, cur.contract, "0.0.1").map_err(|e| e.to_string())?;
+                let deps = DepsMut { storage: &mut kv2, api: &api, querier: QuerierWrapper::new(&q) };
+                matches!(guarded(|| treasury::contract::migrate(deps, env(time), treasury::msg::MigrateMsg {})), Ok(Ok(_)))
+            }
+        };
+        return if ok { Ok(kv2) } else { Err("refused".into()) };
+    }
     let api = SimApi { prefix: PROTO_PREFIX };
     let q = NoQuerier;
     let info = MessageInfo { sender: Addr::unchecked(admin), funds: vec![] };
@@ -205,7 +225,7 @@ impl Scenario for OwnScenario {
             a.push(OwnAct::Accept { by: by.clone() });
         }
         if s.noise < 2 && s.nominee.is_some() {
-            for kind in 0..3u8 {
+            for kind in 0..4u8 {
                 a.push(OwnAct::Noise { kind });
             }
         }
@@ -232,11 +252,15 @@ impl Scenario for OwnScenario {
         if let OwnAct::Noise { kind } = a {
             // executed by the reference admin; its outcome is not judged here, only that the handover
             // state (judged on every state and on every later step) is untouched
+            let mut tags = vec!["Noise:ok".to_string()];
             if let Ok(kv2) = noise_call(s.which, &s.kv, s.time, &s.admin, *kind) {
                 n.kv = kv2;
+                if *kind == 3 {
+                    tags.push("Noise:upgrade_migrated".into());
+                }
             }
             n.noise += 1;
-            return Step { next: Some(n), violations, tags: vec!["Noise:ok".into()], validated: 0, digest: 0 };
+            return Step { next: Some(n), violations, tags, validated: 0, digest: 0 };
         }
         let by = match a {
             OwnAct::Transfer { by, .. } | OwnAct::Revoke { by } | OwnAct::Accept { by } => by.clone(),
@@ -380,7 +404,7 @@ pub fn run(thorough: bool) -> i32 {
             }
         }
         let aborted = rep.found.iter().any(|f| !f.known) || rep.capped.is_some();
-        for g in ["goal:ownership_changed_hands", "goal:accepted_exactly_at_seven_days", "goal:refused_one_second_early", "goal:former_admin_has_no_rights", "Revoke:ok"] {
+        for g in ["goal:ownership_changed_hands", "goal:accepted_exactly_at_seven_days", "goal:refused_one_second_early", "goal:former_admin_has_no_rights", "Revoke:ok", "Noise:upgrade_migrated"] {
             if !aborted && !rep.tags.contains_key(g) {
                 r.machinery.push(format!("vacuous exploration: {} never hit {}", sc.name(), g));
             }
